@@ -134,14 +134,37 @@ def _species(flat, labels=None):
                        charge=0, mult=1 if ne % 2 == 0 else 2)
 
 
+KU = "Ha Å^-2"          # unit all force constants of a band dict are given in
+
+
+def laid_out(g, layout):
+    """The gradient g (logical row-major (n_atoms, 3)) as the array object a caller may hand over:
+    flat, C-ordered (n, 3), Fortran-ordered (n, 3), or the transposed view of a (3, n) array."""
+    a = np.array(g, dtype=float).reshape(-1, 3)
+    if layout == "C":
+        return a.copy()
+    if layout == "F":
+        return np.asfortranarray(a)
+    if layout == "T":
+        return np.ascontiguousarray(a.T).T
+    return a.flatten()
+
+
+def kphys(k):
+    """force constant in Ha / A^2 as a float"""
+    return float(k.to(KU)) if hasattr(k, "to") else float(k)
+
+
 def build_images(band):
     """autode Images for a band dict (energies/coords/grads/ks); the image `ci` is a CImage."""
     from autode.neb.original import Images
     from autode.neb.ci import CImage
     from autode.values import ForceConstant, PotentialEnergy
     kw = {}
+    bu = band.get("bound_units") or [KU, KU]
     if band.get("min_k") is not None:
-        kw = {"min_k": ForceConstant(band["min_k"]), "max_k": ForceConstant(band["max_k"])}
+        # band values are Ha / A^2; the objects may carry them in another unit
+        kw = {"min_k": ForceConstant(band["min_k"]).to(bu[0]), "max_k": ForceConstant(band["max_k"]).to(bu[1])}
     imgs = Images(init_k=ForceConstant(band["ks"][0]), **kw)
     for x in band["coords"]:
         imgs.append_species(_species(x))
@@ -149,8 +172,8 @@ def build_images(band):
     for i, im in enumerate(imgs):
         # band["energies"] are Hartree values; the image may STORE them in another unit
         im.energy = band["energies"][i] if units[i] == "Ha" else PotentialEnergy(band["energies"][i], units="Ha").to(units[i])
-        im.gradient = np.array(band["grads"][i], dtype=float)
-        im.k = ForceConstant(band["ks"][i])
+        im.gradient = laid_out(band["grads"][i], band.get("grad_layout", "flat"))
+        im.k = ForceConstant(band["ks"][i]).to((band.get("k_units") or [KU] * len(band["ks"]))[i])
     if band.get("ci") is not None:
         imgs[band["ci"]] = CImage(imgs[band["ci"]])
     return imgs
@@ -236,7 +259,7 @@ def gen_band(rng, m, natoms, profile):
         inter = list(range(1, m - 1))
         ci = max(inter, key=lambda i: es[i]) if rng.random() < 0.7 else rng.choice(inter)
     return {"m": m, "natoms": natoms, "profile": profile, "energies": es, "coords": coords, "grads": grads,
-            "ks": ks, "min_k": lo, "max_k": hi, "ci": ci}
+            "ks": ks, "min_k": lo, "max_k": hi, "ci": ci, "grad_layout": rng.choice(["flat", "C", "F", "T"])}
 
 
 UNIT_PATTERNS = ["interior-kcal", "ends-eV", "random-units"]
@@ -257,6 +280,21 @@ def gen_mixed_band(rng, m, natoms, profile, pattern):
             units[rng.randrange(m)] = "eV" if units[0] != "eV" else "Ha"
     band["units"] = units
     band["profile"] = f"{profile}/{pattern}"
+    return band
+
+
+K_UNITS = ["Ha Å^-2", "Ha a0^-2", "J m^-2"]
+
+
+def gen_mixed_k_band(rng, m, natoms, profile):
+    """Energies in Ha, but force constants (and the configured bounds) carried in different units."""
+    band = gen_band(rng, m, natoms, profile)
+    ku = [rng.choice(K_UNITS) for _ in range(m)]
+    if len(set(ku[:3])) == 1:
+        ku[0] = "Ha a0^-2" if ku[0] != "Ha a0^-2" else "Ha Å^-2"
+    band["k_units"] = ku
+    band["bound_units"] = rng.choice([["Ha Å^-2", "Ha a0^-2"], ["Ha a0^-2", "Ha Å^-2"], ["J m^-2", "Ha Å^-2"]])
+    band["profile"] = f"{profile}/k-units"
     return band
 
 
@@ -298,6 +336,12 @@ def oracle_band(band):
     plain = dict(band, ci=None)
     imgs = build_images(plain)
     n = 3 * band["natoms"]
+    for i, im in enumerate(imgs):
+        if not np.array_equal(np.array(im.gradient, dtype=float), np.array(band["grads"][i], dtype=float)):
+            fails.append(("Image.gradient|not-row-major-flat",
+                          f"image {i}: gradient given as a {band.get('grad_layout')}-layout array of {band['grads'][i]} is stored as "
+                          f"{np.array(im.gradient, dtype=float).tolist()}"))
+            break
     for i in range(1, m - 1):
         l, c, r = imgs[i - 1], imgs[i], imgs[i + 1]
         El, E, Er = (float(band["energies"][j]) for j in (i - 1, i, i + 1))
@@ -356,7 +400,12 @@ def oracle_band(band):
         spring = kr * float(np.linalg.norm(xr - x)) - kl * float(np.linalg.norm(x - xl))
         gperp = g - np.dot(g, th) * th
         fpar = float(np.dot(f, th))
-        if abs(fpar - spring) > TOL * max(1.0, abs(spring)):
+        ku3 = [(band.get("k_units") or [KU] * m)[j] for j in (i - 1, i + 1)]
+        if abs(fpar - spring) > TOL * max(1.0, abs(spring)) and set(ku3) != {KU}:
+            fails.append(("Image.get_force|force-constant-units",
+                          f"image {i}: neighbours carry k_l = {kl} and k_r = {kr} Ha/A^2 in units {ku3}: F.tau = {fpar!r}, "
+                          f"spring term k_r|x_r-x| - k_l|x-x_l| = {spring!r} Ha/A"))
+        elif abs(fpar - spring) > TOL * max(1.0, abs(spring)):
             fails.append(("Image.get_force|parallel-component",
                           f"image {i}: F.tau = {fpar!r}, spring term k_r|x_r-x| - k_l|x-x_l| = {spring!r}"))
         if not vclose(f - fpar * th, -gperp):
@@ -420,32 +469,36 @@ def oracle_band(band):
                 fails.append(("Images.increment|raises", f"adaptive={adaptive}: {type(e).__name__}: {e}"))
                 obs[f"ks_{adaptive}"] = None
                 continue
-            ks = [float(im.k) for im in im2]
+            ks = [kphys(im.k) for im in im2]          # Ha / A^2 whatever unit the object carries
             obs[f"ks_{adaptive}"] = ks
             if [im.iteration for im in im2] != [k + 1 for k in it0]:
                 fails.append(("Images.increment|iteration", "iteration counters not advanced by one"))
             es = [float(e) for e in band["energies"]]
+            old_ks = [float(k) for k in band["ks"]]
             if not adaptive:
-                if ks != [float(k) for k in band["ks"]]:
+                if not vclose(ks, old_ks, 1e-12):
                     fails.append(("Images.increment|changes-k-when-off", f"adaptive off but k changed: {ks}"))
                 continue
-            changed = ks != [float(k) for k in band["ks"]]
             e_ref, e_max = max(es[0], es[-1]), max(es)
-            if e_max - e_ref > 2e-5 and not changed and band["max_k"] - band["min_k"] > 0 and len(set(band["ks"])) > 1:
-                fails.append(("Images.increment|not-updated", f"peak {e_max} above the end points {e_ref} but constants unchanged"))
-            if changed:
-                lo, hi = band["min_k"], band["max_k"]
+            lo, hi = band["min_k"], band["max_k"]
+            # the update is due when the band has a peak clearly above both end points (Energy.__eq__ tolerance 1.59e-5 Ha);
+            # the property is then stated on the constants AFTER the call, whatever they were before
+            if e_max - e_ref > 2e-5:
                 if any(k < lo - TOL or k > hi + TOL for k in ks):
                     fails.append(("Images.increment|k-out-of-bounds", f"k = {ks} outside [{lo}, {hi}] for energies {es}"))
-                for a in range(m):
-                    for b in range(m):
-                        if es[a] <= es[b] and ks[a] > ks[b] + TOL:
-                            fails.append(("Images.increment|k-not-monotone",
-                                          f"E[{a}]={es[a]} <= E[{b}]={es[b]} but k[{a}]={ks[a]} > k[{b}]={ks[b]}"))
-                            break
-                    else:
-                        continue
-                    break
+                bad = next(((a, b) for a in range(m) for b in range(m) if es[a] <= es[b] and ks[a] > ks[b] + TOL), None)
+                if bad:
+                    a, b = bad
+                    fails.append(("Images.increment|k-not-monotone",
+                                  f"E[{a}]={es[a]} <= E[{b}]={es[b]} but k[{a}]={ks[a]} > k[{b}]={ks[b]}"))
+                elif hi - lo > 1e-6:
+                    # "increase with image energy": strictly, between images at or above the reference energy
+                    flat = next(((a, b) for a in range(m) for b in range(m)
+                                 if e_ref <= es[a] and es[a] + 1e-6 < es[b] and not ks[a] < ks[b]), None)
+                    if flat:
+                        a, b = flat
+                        fails.append(("Images.increment|k-not-increasing",
+                                      f"E_ref={e_ref} <= E[{a}]={es[a]} < E[{b}]={es[b]} but k[{a}]={ks[a]}, k[{b}]={ks[b]} (bounds [{lo}, {hi}])"))
     finally:
         Config.adaptive_neb_k = old
     return fails, obs
@@ -496,7 +549,18 @@ def oracle_from_end_points(d):
     from autode.neb.ci import CINEB
     fails = []
     cls = CINEB if d.get("cineb") else NEB
-    a, b = _species(d["a"], d["labels"]), _species(d["b"], d["labels"])
+    labels_b = d.get("labels_b") or d["labels"]
+    a, b = _species(d["a"], d["labels"]), _species(d["b"], labels_b)
+    if labels_b != d["labels"]:
+        # same composition, different atom order: the documented precondition is violated, the band cannot keep
+        # atom order -> must be refused
+        try:
+            neb = cls.from_end_points(a, b, num=d["n"])
+        except ValueError:
+            return fails
+        return [("NEB.from_end_points|permuted-atom-order-accepted",
+                 f"initial atoms {d['labels']}, final atoms {labels_b}: accepted; images carry "
+                 f"{[[at.label for at in im.atoms] for im in neb.images]}")]
     neb = cls.from_end_points(a, b, num=d["n"])
     ims = neb.images
     if len(ims) != d["n"]:
@@ -524,6 +588,8 @@ def brute_max_distance(coords, idxs):
 def oracle_maxdist(d):
     from autode.neb.original import NEB
     fails = []
+    if d.get("cineb"):
+        from autode.neb.ci import CINEB as NEB  # noqa: F811  (an override in the subclass would be exercised)
     neb = NEB.from_list([_species(x) for x in d["coords"]])
     idxs = d["idxs"]
     sel = list(range(len(d["coords"][0]) // 3)) if idxs is None else idxs
@@ -549,10 +615,14 @@ def run_partition(d):
     calls = []
     orig = NEB.__dict__["from_end_points"]
 
+    fail_calls = set(d.get("fail_calls") or ())
+
     def wrapper(cls, initial, final, num, **kw):
         l = np.array(initial.coordinates).flatten().copy()
         r = np.array(final.coordinates).flatten().copy()
         try:
+            if len(calls) in fail_calls:     # fault injection: the IDPP relaxation of this trial band fails
+                raise RuntimeError("injected: IDPP relaxation failed")
             res = orig.__func__(cls, initial, final, num, **kw)
         except RuntimeError:
             calls.append((l, r, num, None))
@@ -560,11 +630,16 @@ def run_partition(d):
         calls.append((l, r, num, [np.array(im.coordinates).flatten().copy() for im in res.images]))
         return res
 
-    neb = NEB.from_list([_species(x, d["labels"]) for x in d["coords"]])
+    if d.get("cineb"):
+        from autode.neb.ci import CINEB
+        neb = CINEB.from_list([_species(x, d["labels"]) for x in d["coords"]])
+    else:
+        neb = NEB.from_list([_species(x, d["labels"]) for x in d["coords"]])
     NEB.from_end_points = classmethod(wrapper)
     try:
         try:
-            neb.partition(max_delta=Distance(d["max_delta"]), distance_idxs=d["idxs"])
+            # d["max_delta"] is in Angstrom; the Distance object may carry it in another unit
+            neb.partition(max_delta=Distance(d["max_delta"]).to(d.get("max_delta_unit") or "Å"), distance_idxs=d["idxs"])
             tag = "ok"
         except AssertionError:
             tag = "assertion"
@@ -590,7 +665,11 @@ def oracle_partition(d):
         return fails, (tag, final, calls), info
     worst = brute_max_distance(final, sel)
     info["worst"] = worst
-    if worst > d["max_delta"] * (1 + TOL):
+    if worst > d["max_delta"] * (1 + TOL) and (d.get("max_delta_unit") or "Å") != "Å":
+        fails.append(("NEB.partition|max_delta-units",
+                      f"max_delta = {d['max_delta']} A given as a Distance in {d['max_delta_unit']}, atoms {sel}: after partition two "
+                      f"consecutive images differ by {worst!r} A ({len(d['coords'])} -> {len(final)} images)"))
+    elif worst > d["max_delta"] * (1 + TOL):
         fails.append(("NEB.partition|bound-exceeded",
                       f"max_delta={d['max_delta']}, atoms {sel}: after partition two consecutive images differ by {worst!r} "
                       f"({len(d['coords'])} -> {len(final)} images)"))
@@ -617,6 +696,78 @@ TIMED_OUT = {}             # kind -> number of calls that hit the limit in this 
 
 class OracleTimeout(BaseException):
     pass
+
+
+def oracle_ci_sequence(d):
+    """A climbing-image band over several optimiser iterations whose energies change: after every
+    increment() past the waiting period exactly the highest interior peak is the climbing image (feels
+    -g + 2(g.tau)tau); every other interior image feels the ordinary NEB force."""
+    from autode.neb.original import Images
+    from autode.neb.ci import CImages, CImage
+    from autode.values import ForceConstant
+    fails = []
+    band = d["band"]
+    m = band["m"]
+    imgs = CImages(Images(init_k=ForceConstant(band["ks"][0])), wait_iterations=d["wait"])
+    for x in band["coords"]:
+        imgs.append_species(_species(x))
+    for i, im in enumerate(imgs):
+        im.k = ForceConstant(band["ks"][i])
+    for step, es in enumerate(d["profiles"]):
+        for i, im in enumerate(imgs):
+            im.energy = es[i]
+            im.gradient = np.array(band["grads"][i], dtype=float)
+        imgs.increment()
+        if imgs[0].iteration < d["wait"]:
+            if any(isinstance(im, CImage) for im in imgs):
+                fails.append(("CImages.increment|climbs-before-wait", f"step {step}: a climbing image before iteration {d['wait']}"))
+            continue
+        peaks = [i for i in range(1, m - 1) if es[i - 1] < es[i] > es[i + 1]]
+        if not peaks:
+            continue
+        top = max(peaks, key=lambda i: es[i])
+        for i in range(1, m - 1):
+            xl, x, xr = (np.array(band["coords"][j]) for j in (i - 1, i, i + 1))
+            th = spec_tangent(es[i - 1], es[i], es[i + 1], xl, x, xr)
+            if th is None:
+                continue
+            g = np.array(band["grads"][i])
+            f = np.array(imgs[i].get_force(im_l=imgs[i - 1], im_r=imgs[i + 1]), dtype=float)
+            f_ci = -g + 2.0 * np.dot(g, th) * th
+            spring = kphys(imgs[i + 1].k) * float(np.linalg.norm(xr - x)) - kphys(imgs[i - 1].k) * float(np.linalg.norm(x - xl))
+            f_neb = spring * th - (g - np.dot(g, th) * th)
+            if i == top and not (isinstance(imgs[i], CImage) and vclose(f, f_ci)):
+                fails.append(("CImages.increment|highest-peak-not-climbing",
+                              f"step {step}, energies {es}: the highest peak is image {i} ({type(imgs[i]).__name__}) but its force "
+                              f"{f.tolist()} is not -g + 2(g.tau)tau = {f_ci.tolist()}"))
+            if i != top and (isinstance(imgs[i], CImage) or not vclose(f, f_neb)):
+                fails.append(("CImages.increment|stale-climbing-image",
+                              f"step {step}, energies {es}: image {i} ({type(imgs[i]).__name__}) is not the highest peak (image {top}) but "
+                              f"its force {f.tolist()} is not the NEB force {f_neb.tolist()}"))
+        if fails:
+            break
+    return fails
+
+
+def oracle_config(d):
+    """Images(init_k, min_k, max_k): the configured bounds must contain the constant every image starts with
+    (otherwise the constants are outside the bounds before any update), and max_k > min_k."""
+    from autode.neb.original import Images
+    from autode.values import ForceConstant
+    try:
+        imgs = Images(init_k=ForceConstant(d["init_k"]), min_k=ForceConstant(d["min_k"]), max_k=ForceConstant(d["max_k"]))
+    except (AssertionError, ValueError):
+        ok = d["min_k"] < d["max_k"] and d["min_k"] <= d["init_k"] <= d["max_k"]
+        return [("Images.__init__|rejects-consistent-bounds", f"{d} refused")] if ok else []
+    if not d["min_k"] < d["max_k"]:
+        return [("Images.__init__|accepts-min_k-not-below-max_k", f"{d} accepted")]
+    imgs.append_species(_species([0, 0, 0, 0.8, 0, 0]))
+    k = kphys(imgs[0].k)
+    if not d["min_k"] - TOL <= k <= d["max_k"] + TOL:
+        return [("Images.__init__|init_k-outside-configured-bounds",
+                 f"Images(init_k={d['init_k']}, min_k={d['min_k']}, max_k={d['max_k']}) is accepted: every image starts with k = {k} "
+                 f"outside [{d['min_k']}, {d['max_k']}]")]
+    return []
 
 
 def guarded(kind, fn, d, nres):
@@ -656,7 +807,7 @@ def guarded(kind, fn, d, nres):
 
 ORACLES = {"band": lambda d: oracle_band(d)[0], "interp": lambda d: oracle_interp(d)[0],
            "from_end_points": oracle_from_end_points, "maxdist": lambda d: oracle_maxdist(d)[0],
-           "partition": lambda d: oracle_partition(d)[0]}
+           "partition": lambda d: oracle_partition(d)[0], "ci_sequence": oracle_ci_sequence, "config": oracle_config}
 
 
 # ============================================================================================
@@ -798,7 +949,32 @@ def all_cases(ctx):
         t["energies"] = [a / 4.0, b / 4.0, c / 4.0]
         t["profile"] = f"order{a}{b}{c}"
         triples.append(t)
+    # energy gaps far below any "numerically equal" threshold one might be tempted to add (4e-8 Ha): still ordered
+    for (a, b, c) in [(0, 1, 2), (2, 1, 0), (0, 2, 1), (1, 0, 2)]:
+        t = gen_band(rng, 3, 2, "random")
+        t["energies"] = [0.25 + a * 4e-8, 0.25 + b * 4e-8, 0.25 + c * 4e-8]
+        t["profile"] = f"tinygap{a}{b}{c}"
+        triples.append(t)
     mixed = []
+    for m in range(3, (mmax if full else 6) + 1):
+        for profile in (["up", "peak", "valley"] if full else [rng.choice(["peak", "valley", "up"])]):
+            mixed.append(gen_mixed_k_band(rng, m, rng.choice([1, 2]), profile))
+    ci_seqs = []
+    for m in ([4, 5, 6, 8, 12] if full else [5, 7]):
+        for wait in (0, 2):
+            band = gen_band(rng, m, rng.choice([1, 2]), "random")
+            profs = []
+            for step in range(5):
+                p = 1 + (step * 2 + wait) % (m - 2)          # the peak wanders along the band
+                vals = sorted(rng.sample(range(0, 129), m))
+                order = sorted(range(m), key=lambda i: abs(i - p))
+                es = [0.0] * m
+                for rank, i in enumerate(order):
+                    es[i] = vals[m - 1 - rank] / 64.0
+                profs.append(es)
+            ci_seqs.append({"band": band, "profiles": profs, "wait": wait})
+    configs = [{"init_k": 0.1, "min_k": 0.2, "max_k": 0.3}, {"init_k": 0.1, "min_k": 0.01, "max_k": 0.05},
+               {"init_k": 0.1, "min_k": 0.05, "max_k": 0.2}, {"init_k": 0.1, "min_k": 0.2, "max_k": 0.15}]
     for m in range(3, mmax + 1):
         for pattern in UNIT_PATTERNS:
             for profile in (["up", "down", "peak", "valley"] if full else [rng.choice(["peak", "valley"]), rng.choice(["up", "down", "peak"])]):
@@ -812,7 +988,10 @@ def all_cases(ctx):
         a = [rng.randrange(-24, 25) / 8.0 for _ in range(3 * nat)]
         b = [rng.randrange(-24, 25) / 8.0 for _ in range(3 * nat)]
         interps.append({"mol": "randH", "labels": ["H"] * nat, "labels_b": ["H"] * nat, "a": a, "b": b, "n": n})
-    feps = []
+    feps = [{"mol": "H2O-permuted", "labels": ["O", "H", "H"], "labels_b": ["H", "O", "H"], "n": 3, "cineb": False,
+             "a": [0, 0, 0, 0.96, 0, 0.1, -0.3, 0.9, 0], "b": [0.9, 0, 0, 0, 0, 0.1, -0.3, 0.9, 0]},
+            {"mol": "HCN-permuted", "labels": ["H", "C", "N"], "labels_b": ["N", "C", "H"], "n": 4, "cineb": True,
+             "a": [-1.1, 0, 0, 0, 0, 0, 1.15, 0, 0], "b": [1.15, 0, 0, 0, 0, 0, -1.1, 0, 0]}]
     for name, (labels, a, b) in MOLS.items():
         for n in ((list(range(2, 21)) if name == "H3" else [2, 3, 4, 5, 6, 7, 9, 12]) if full else [2, 3, 4, 6, 8]):
             feps.append({"mol": name, "labels": labels, "a": a, "b": b, "n": n, "cineb": (n % 3 == 0)})
@@ -829,7 +1008,7 @@ def all_cases(ctx):
                 coords[2] = [c - 11.0 for c in coords[1]]
             choice = rng.random()
             idxs = None if choice < 0.4 else sorted(rng.sample(range(nat), rng.randrange(1, nat + 1)))
-            maxd.append({"coords": coords, "idxs": idxs})
+            maxd.append({"coords": coords, "idxs": idxs, "cineb": rep == 1})
     maxd.append({"coords": [[0, 0, 0, 1, 0, 0], [0, 0, 1, 1, 0, 1], [0, 0, 3, 1, 0, 3]], "idxs": []})
     parts = []
     for name in (["H3", "H2O", "H2", "HCN"] if full else ["H3", "H2O", "H2"]):
@@ -853,7 +1032,18 @@ def all_cases(ctx):
     for name, labels, coords, md, idxs in fine:
         parts.append({"mol": name + "-fine", "labels": labels, "coords": [list(map(float, c)) for c in coords],
                       "max_delta": md, "idxs": idxs})
-    return {"band": bands, "triple": triples, "mixed": mixed, "interp": interps, "from_end_points": feps, "maxdist": maxd, "partition": parts}
+    # max_delta handed over as a Distance in another unit (the value below is always in Angstrom)
+    h2 = [[0.0, 0, 0, 0.8, 0, 0], [0.0, 0, 0, 1.8, 0, 0]]
+    for unit in (["pm", "bohr", "nm", "Å"] if full else ["pm", "bohr"]):
+        parts.append({"mol": "H2-" + unit, "labels": ["H", "H"], "coords": h2, "max_delta": 0.3, "idxs": [1], "max_delta_unit": unit})
+    # the IDPP relaxation of one trial band fails (RuntimeError, tolerated by partition): the bound must still hold
+    h3 = MOLS["H3"]
+    for md, k, idxs in ([(0.1, 3, None), (0.15, 2, [1]), (0.12, 4, None)] if full else [(0.1, 3, None), (0.15, 2, [1])]):
+        parts.append({"mol": "H3-idpp-fails", "labels": h3[0], "coords": [list(map(float, h3[1])), list(map(float, h3[2]))],
+                      "max_delta": md, "idxs": idxs, "fail_calls": [k]})
+    parts.append({"mol": "H2O-cineb", "labels": MOLS["H2O"][0], "coords": [list(map(float, MOLS["H2O"][1])), list(map(float, MOLS["H2O"][2]))],
+                  "max_delta": 0.2, "idxs": None, "cineb": True})
+    return {"band": bands, "triple": triples, "mixed": mixed, "ci_sequence": ci_seqs, "config": configs, "interp": interps, "from_end_points": feps, "maxdist": maxd, "partition": parts}
 
 
 def run(ctx):
@@ -943,6 +1133,12 @@ def run(ctx):
             [sp_term([at.label for at in s.atoms], np.array(s.coordinates).flatten().tolist()) for s in sp]) + ")"
         add(f"check_interp {coq_nat(len(d['a']))} {sp_term(d['labels'], d['a'])} {sp_term(d['labels_b'], d['b'])} {coq_nat(d['n'])} {exp}",
             {"what": "interpolated_species", "case": d}, "model-vs-impl-interpolation", (d["mol"], d["n"], tuple(d["a"])), nontrivial=d["n"] >= 3)
+    for d in cases["ci_sequence"]:
+        report("ci_sequence", d, guarded("ci_sequence", oracle_ci_sequence, d, 1))
+        ctx.count("impl-oracle-climbing-image-sequence", (d["band"]["m"], d["wait"], tuple(d["profiles"][0])), nontrivial=True)
+    for d in cases["config"]:
+        report("config", d, guarded("config", oracle_config, d, 1))
+        ctx.count("impl-oracle-force-constant-bounds", tuple(d.values()), nontrivial=True)
     for d in cases["from_end_points"]:
         report("from_end_points", d, guarded("from_end_points", oracle_from_end_points, d, 1))
         ctx.count("impl-oracle-from_end_points", (d["mol"], d["n"], d["cineb"]), nontrivial=d["n"] >= 3)
@@ -967,7 +1163,8 @@ def run(ctx):
         report("partition", d, fails)
         if res is None:
             continue
-        key = (d["mol"], len(d["coords"]), d["max_delta"], tuple(d["idxs"] or ()), d["idxs"] is None)
+        key = (d["mol"], len(d["coords"]), d["max_delta"], tuple(d["idxs"] or ()), d["idxs"] is None, d.get("max_delta_unit"),
+               tuple(d.get("fail_calls") or ()), bool(d.get("cineb")))
         nontriv = pinfo["n_final"] > len(d["coords"])
         ctx.count("impl-oracle-partition", key, nontrivial=nontriv)
         ctx.hist("impl-oracle-partition", f"images {len(d['coords'])}->{pinfo['n_final']}")
